@@ -200,6 +200,37 @@ def generate(rng, tier):
         u = next((x for x in UNITS.values() if key in x["names"] or key in x["spell"]), None)
         if u is not None:
             cases.append(exec_case(text, "en", kind="qty-sum-pinned", typ="qty", expect=frac(F(val)), unit=u["key"]))
+    for text, typ, val, key in (("4 megabyte / 2 megabyte", "number", 2, None), ("1 kb + 1 megabyte + 1 megabyte + 1 megabyte", "qty", 3073, "kb"),
+                                ("8 megabyte - 2 megabyte - 2 megabyte", "qty", 4, "mb"), ("3 megabyte + 1 megabyte to kb", None, None, None)):
+        if typ == "number":
+            cases.append(exec_case(text, "en", kind="unit-word-twice", typ="number", expect=frac(F(val))))
+        elif typ == "qty":
+            u = next((x for x in UNITS.values() if key in x["names"] or key in x["spell"]), None)
+            if u is not None:
+                cases.append(exec_case(text, "en", kind="unit-word-twice", typ="qty", expect=frac(F(val)), unit=u["key"]))
+    # units of two families of one kind that sit at the same position of their chains (cm / ft, mm / inch, mg / oz)
+    for text, typ, val, key in (("1 cm + 1 ft", "qty", F(1) + F(3048, 100), "cm"), ("1 ft - 1 cm", "qty", F(1) - F(100, 3048), "ft"),
+                                ("10 cm / 1 ft", "number", F(1000, 3048), None), ("1 mm + 1 inch", "qty", F(1) + F(254, 10), "mm"),
+                                ("1 inch + 1 mm", "qty", F(1) + F(10, 254), "inch")):
+        if typ == "number":
+            cases.append(exec_case(text, "en", kind="same-chain-position", typ="number", expect=frac(val)))
+        else:
+            u = next((x for x in UNITS.values() if key in x["names"] or key in x["spell"]), None)
+            if u is not None:
+                cases.append(exec_case(text, "en", kind="same-chain-position", typ="qty", expect=frac(val), unit=u["key"]))
+    for text, srck in (("1 kb + 1 dg", "kb"), ("1 byte + 1 ft", "byte"), ("1 kg - 1 km", "kg")):
+        u = next((x for x in UNITS.values() if srck in x["names"] or srck in x["spell"]), None)
+        if u is not None:
+            cases.append(exec_case(text, "en", kind="cross-kind", typ="cross", src=u["key"]))
+    # small memory amounts taken up several 1024-steps and back / scaled / as divisors (no rounding of intermediates)
+    for text, typ, val, key in (("a = 1 byte to tb\na * 1099511627776", "qty", 1, "tb"), ("1 tb / 1 byte", "number", 1099511627776, None),
+                                ("a = 5 byte to gb\na to byte", "qty", 5, "byte"), ("a = 1 kb to tb\na to kb", "qty", 1, "kb")):
+        if typ == "number":
+            cases.append(exec_case(text, "en", kind="variable-small", typ="number", expect=frac(F(val))))
+        else:
+            u = next((x for x in UNITS.values() if key in x["names"] or key in x["spell"]), None)
+            if u is not None:
+                cases.append(exec_case(text, "en", kind="variable-small", typ="qty", expect=frac(F(val)), unit=u["key"]))
     # 4c. the amount supplied by a variable, in front of the unit word; and a variable NAMED like a unit word
     for text, val, key in (("x = 10\nx kg", 10, "kg"), ("x = 10\nx kg to g", 10000, "g"), ("x = 10\nx m + 5 m", 15, "m"),
                            ("len = 3\nlen km to m", 3000, "m"), ("n = 2\nn mb to kb", 2048, "kb")):
